@@ -6,7 +6,7 @@ use nom::bytes::complete::take;
 use super::FrameType;
 use crate::{
     error::{ErrorFrameType, ErrorKind},
-    frame::{GetFrameType, be_frame_type, io::WriteFrameType},
+    frame::{GetFrameType, io::WriteFrameType},
     varint::{VarInt, be_varint},
 };
 
@@ -150,7 +150,8 @@ impl super::EncodeSize for ConnectionCloseFrame {
                     + frame.reason.len()
             }
             ConnectionCloseFrame::Quic(frame) => {
-                1 + VarInt::from(frame.error_kind).encoding_size() + 1
+                1 + VarInt::from(frame.error_kind).encoding_size()
+                    + VarInt::from(frame.frame_type).encoding_size()
                     // reason's length could not exceed 16KB.
                     + VarInt::try_from(frame.reason.len()).unwrap().encoding_size()
                     + frame.reason.len()
@@ -200,8 +201,14 @@ fn be_quic_close_frame(input: &[u8]) -> nom::IResult<&[u8], QuicCloseFrame> {
     let (remain, error_code) = be_varint(input)?;
     let error_kind = ErrorKind::try_from(error_code)
         .map_err(|_e| nom::Err::Error(nom::error::make_error(input, nom::error::ErrorKind::Alt)))?;
-    let (remain, frame_type) = be_frame_type(remain)
+    // The Frame Type field names the frame that triggered the error; it may be an extension
+    // frame type unknown to this implementation, which must not make the whole frame unparsable.
+    let (remain, frame_type) = be_varint(remain)
         .map_err(|_e| nom::Err::Error(nom::error::make_error(input, nom::error::ErrorKind::Alt)))?;
+    let frame_type = match FrameType::try_from(frame_type) {
+        Ok(frame_type) => ErrorFrameType::V1(frame_type),
+        Err(_) => ErrorFrameType::Ext(frame_type),
+    };
     let (remain, reason_length) = be_varint(remain)?;
     let (remain, reason) = take(reason_length)(remain)?;
     let cow = String::from_utf8_lossy(reason).into_owned();
@@ -209,7 +216,7 @@ fn be_quic_close_frame(input: &[u8]) -> nom::IResult<&[u8], QuicCloseFrame> {
         remain,
         QuicCloseFrame {
             error_kind,
-            frame_type: frame_type.into(),
+            frame_type,
             reason: Cow::Owned(cow),
         },
     ))
